@@ -318,6 +318,21 @@ fn seeds() -> Vec<Seed> {
     v.push(Seed { entry: "textstr", name: "utf16".into(), bytes: vec![0xfe, 0xff, 0x00, 0x41, 0xd8, 0x3d, 0xde, 0x00, 0x20, 0xac], byte_level: true });
     v.push(Seed { entry: "textstr", name: "utf8".into(), bytes: vec![0xef, 0xbb, 0xbf, b'a', 0xc3, 0xa9, 0xf0, 0x9f, 0x98, 0x80], byte_level: true });
     v.push(Seed { entry: "textstr", name: "pdfdoc".into(), bytes: vec![b'A', 0x18, 0x80, 0xa0, 0xad, 0xff, 0x7f, 0x09], byte_level: true });
+    // language escape sequences (ESC lang [country] ESC) in UTF-16BE and UTF-8 text strings: complete, at the very end,
+    // unterminated, a lone ESC as last unit
+    let u16be = |t: &str| -> Vec<u8> {
+        let mut b = vec![0xfe, 0xff];
+        for u in t.encode_utf16() {
+            b.extend_from_slice(&u.to_be_bytes());
+        }
+        b
+    };
+    for (i, t) in ["A\u{1b}en\u{1b}B", "AB\u{1b}enUS\u{1b}", "ABC\u{1b}en", "ABCD\u{1b}", "\u{1b}\u{1b}", "\u{1b}en\u{1b}x\u{1b}deDE\u{1b}y\u{1b}"].iter().enumerate() {
+        v.push(Seed { entry: "textstr", name: format!("utf16-esc-{}", i), bytes: u16be(t), byte_level: true });
+        let mut u8s = vec![0xef, 0xbb, 0xbf];
+        u8s.extend_from_slice(t.as_bytes());
+        v.push(Seed { entry: "textstr", name: format!("utf8-esc-{}", i), bytes: u8s, byte_level: true });
+    }
     v
 }
 
@@ -473,9 +488,11 @@ fn tokens(seed: &[u8]) -> Vec<(usize, usize)> {
     v
 }
 
-const EXTREMES: [&str; 16] = [
+const EXTREMES: [&str; 21] = [
     "0", "1", "-1", "2147483647", "2147483648", "4294967295", "4294967296", "9223372036854775807", "9223372036854775808",
     "100000000000000000000", "-9223372036854775808", "65535", "65536", "00000000000000000000001", "1.5", "1e5",
+    // unsigned 64-bit and 32-bit ends (parsers that read into u64 / usize and add or narrow afterwards)
+    "18446744073709551615", "18446744073709551614", "18446744073709551616", "4294967297", "4294967294",
 ];
 
 fn token_edits(seed: &[u8]) -> Vec<Edit> {
@@ -1179,7 +1196,7 @@ fn main() {
     }
     run.rule(
         "(a) every 1-edit mutant of the byte-level seeds (each position x {replace by 16 sharp bytes, insert 16 sharp bytes, flip each bit, delete, truncate}) \
-         and every token-level edit of all seeds (delete / duplicate token, replace by another kind or by deep nesting, every integer by 16 extremes, by offsets, \
+         and every token-level edit of all seeds (delete / duplicate token, replace by another kind or by deep nesting, every integer by 21 extremes, by offsets, \
          by every other integer of the file, block splices); every mutant of a file with a classic cross-reference table or an unfiltered cross-reference stream additionally in a structure-aware form whose offsets and startxref are re-pointed at the moved objects; 2-edit mutants at token sites of small seeds (thorough); (b) parametric adversarial families \
          (nesting depth, reference and Prev cycles, xref-stream W/Index/Size, object-stream N/First, predictor parameters, all PNG row tags, ASCII85 groups, LZW \
          code sequences, inline-image geometry, CMap grammar extremes, BOM-alphabet text strings, Length/startxref extremes); nine entry points in isolated workers; \
